@@ -33,7 +33,7 @@ func TestC01(t *testing.T) {
 	r.ForEach("history", n, 8, func(i int, rng *rand.Rand) {
 		sb := e2e.NewSandbox(filepath.Join(r.Scratch(), fmt.Sprintf("h%d", i)))
 		defer lib.RemoveAll(sb.Work)
-		state := e2e.Generate(rng, e2e.GenOpts{Tools: true, DirOuts: true})
+		state := e2e.Generate(rng, e2e.GenOpts{Tools: true, DirOuts: true, PostBuild: true})
 		state.VLog = sb.VLog
 		if err := state.Materialize(sb.Repo); err != nil {
 			panic(err)
